@@ -93,3 +93,144 @@ def rule_set_adopts(prog, res, f, rule="R-SET-ADOPTS"):
         res.fail(rule, inst, "%s|%s" % (rule, f.name), f.loc(),
                  "%s can report success without storing the file name it was given: the next acquisition is written to the previously configured file"
                  % f.name, {"path_blocks": w})
+
+
+def rule_set_adopts_all(prog, res, f, rule="R-SET-ADOPTS"):
+    """Every setting the device keeps is refreshed by every successful set.
+    M = the device members that `set` assigns from data derived from its
+    settings parameter (whole copies, per-field setters, member assignments).
+    Must-assigned dataflow (intersection at joins): at every success return each
+    member of M has been assigned on every path - from the settings, or reset
+    (clear() / a constant).  A whole-record copy covers its fields, a field
+    setter does not cover the record.  A member that is refreshed only under a
+    condition on the new value keeps the PREVIOUS acquisition's value otherwise."""
+    res.touched(f)
+    sp = [p for p in f.params if p.get("r") == "StorageProperties" and p.get("pd")]
+    if len(sp) != 1:
+        raise AnalysisBroken("%s: settings parameter not found" % f.name)
+    sp = sp[0]
+
+    def is_param(y):
+        return y.get("k") == "var" and y.get("id") == sp["id"]
+    derived = set()
+    changed = True
+    while changed:
+        changed = False
+        for b, i, s in f.all_stmts():
+            for lv, op, rhs, w in ir.writes_of(s):
+                if lv.get("k") == "var" and lv["id"] not in derived and lv["id"] != sp["id"] and isinstance(rhs, dict):
+                    if _mentions(rhs, is_param) or _mentions(rhs, lambda y: y.get("k") == "var" and y.get("id") in derived):
+                        derived.add(lv["id"])
+                        changed = True
+            if s.get("k") == "decl" and isinstance(s.get("init"), dict) and s["var"]["id"] not in derived:
+                if _mentions(s["init"], is_param) or _mentions(s["init"], lambda y: y.get("k") == "var" and y.get("id") in derived):
+                    derived.add(s["var"]["id"])
+                    changed = True
+
+    def from_settings(n):
+        return isinstance(n, dict) and (_mentions(n, is_param) or _mentions(n, lambda y: y.get("k") == "var" and y.get("id") in derived))
+
+    def dev_path(n):
+        n = ir.strip(n)
+        if isinstance(n, dict) and n.get("k") == "addr":
+            n = ir.strip(n["e"])
+        root, ch = ir.field_chain(n)
+        if not ch or not isinstance(root, dict):
+            return None
+        if root.get("k") == "this" or (root.get("k") == "var" and root.get("id") != sp["id"] and root.get("pd") and root.get("id") not in derived):
+            p = ir.ap(n)
+            return p
+        return None
+    SETTERS = {"storage_properties_set_uri": "uri", "storage_properties_set_external_metadata": "external_metadata_json",
+               "storage_properties_set_access_key_and_secret": "access_key_id", "storage_properties_set_dimension": "acquisition_dimensions",
+               "storage_properties_set_enable_multiscale": "enable_multiscale"}
+
+    def gens(s):
+        """[(member path, adopts from settings?)]"""
+        out = []
+        for c in ir.calls_in(s):
+            fn = c.get("fn") or ""
+            a = c.get("args", [])
+            if fn == "storage_properties_copy" and len(a) == 2 and dev_path(a[0]):
+                out.append((dev_path(a[0]), from_settings(a[1])))
+            elif fn in SETTERS and a and dev_path(a[0]):
+                out.append((dev_path(a[0]) + "." + SETTERS[fn], any(from_settings(x) for x in a[1:])))
+            elif (fn.endswith("operator=") or fn.endswith("::assign")) and len(a) >= 2 and dev_path(a[0]):
+                out.append((dev_path(a[0]), any(from_settings(x) for x in a[1:])))
+            elif fn.endswith("::clear") and a and dev_path(a[0]):
+                out.append((dev_path(a[0]), False))
+        for lv, op, rhs, w in ir.writes_of(s):
+            if op == "=" and lv.get("k") != "var" and dev_path(lv):
+                out.append((dev_path(lv), from_settings(rhs) if isinstance(rhs, dict) else False))
+        return out
+    M = {}
+    for b, i, s in f.all_stmts():
+        for p, fs in gens(s):
+            if fs:
+                M.setdefault(p, f.loc(s))
+    if not M:
+        raise AnalysisBroken("%s: no device member is assigned from the settings" % f.name)
+    # must-assigned dataflow
+    preds = f.preds()
+    ALL = None
+    IN = {bid: ALL for bid in f.blocks}
+    IN[f.entry] = frozenset()
+
+    def flow(bid, upto=None):
+        cur = set(IN[bid] or ())
+        blk = f.blocks[bid]
+        for j, s in enumerate(blk.stmts):
+            if upto is not None and j >= upto:
+                break
+            for p, fs in gens(s):
+                cur.add(p)
+        return frozenset(cur)
+    work = [f.entry]
+    OUT = {}
+    while work:
+        bid = work.pop()
+        if IN[bid] is None:
+            continue
+        o = flow(bid)
+        if OUT.get(bid) == o:
+            continue
+        OUT[bid] = o
+        for t in f.blocks[bid].succ_ids():
+            ps = [OUT[p] for p in preds.get(t, []) if p in OUT]
+            new = frozenset.intersection(*ps) if ps else frozenset()
+            if IN[t] is None or new != IN[t]:
+                IN[t] = new if IN[t] is None else (IN[t] & new)
+                work.append(t)
+    rets = []
+    for b, i, s in f.all_stmts():
+        if s.get("k") == "ret" and "e" in s:
+            e = ir.strip(s["e"])
+            if isinstance(e, dict) and e.get("k") == "int":
+                names = list(e.get("names") or [])
+                if isinstance(e.get("e"), str):
+                    names.append(e["e"])
+                if any("Armed" in n_ for n_ in names) or (not names and e.get("v") not in (0, None)):
+                    rets.append((b.id, i, s))
+            elif isinstance(e, dict):
+                rets.append((b.id, i, s))
+    if not rets:
+        raise AnalysisBroken("%s: no success return found" % f.name)
+
+    def covered(m, have):
+        return any(m == p or m.startswith(p + ".") or m.startswith(p + "->") for p in have)
+    for m, where in sorted(M.items()):
+        missing = []
+        for bid, i, s in rets:
+            if IN[bid] is None:
+                continue
+            have = flow(bid, i)
+            if not covered(m, have):
+                missing.append(s)
+        inst = "%s: every successful set refreshes %s" % (f.name, m)
+        if missing:
+            res.fail(rule, inst, "%s|%s|stale|%s" % (rule, f.name.split("::")[-1], m.replace("this->", "").replace("self->", "")), where,
+                     "%s assigns %s from the new settings only on some paths: a successful set can leave the value of the previous configuration in place, "
+                     "and the next acquisition is written with it (file name / metadata / pixel scale of the earlier acquisition)" % (f.name, m))
+        else:
+            res.oblige(rule, inst, True, "assigned on every path to %d success return(s)" % len(rets), where)
+    return len(M)
